@@ -940,6 +940,65 @@ func waitingBehindSoftCancelled(id string, stats bool) runner.Result {
 	return res
 }
 
+// recvFlushStalled: manual flushing. A send is left in the writer, the transport stops taking writes,
+// and a receive is issued: in manual mode it flushes what the application left buffered, and that
+// flush is now stuck inside the transport. The call's context is cancelled. The receive is a blocked
+// call of that RPC like any other: it returns with the context's error, in both cancel modes.
+func recvFlushStalled(id string, soft bool, corked bool) runner.Result {
+	mopts := drpcmanager.Options{SoftCancel: soft, Stream: drpcstream.Options{ManualFlush: true}}
+	handler := rig.HandlerFunc(func(stream drpc.Stream, rpc string) error {
+		<-stream.Context().Done()
+		return nil
+	})
+	rg := rig.New(rig.Config{Net: simnet.Opts{Cap: -1}, Client: mopts, Server: drpcmanager.Options{SoftCancel: soft}}, handler)
+	defer rg.Teardown()
+	ctx, cancel := context.WithCancel(context.Background())
+	defer cancel()
+	st, err := rg.Conn.NewStream(ctx, "/x", payload.Enc{})
+	if err != nil {
+		return runner.Inconcl(id, "NewStream: "+err.Error())
+	}
+	if !corked {
+		// the invoke is out already; only the message below stays in the writer
+		if err := st.(interface{ RawFlush() error }).RawFlush(); err != nil {
+			return runner.Inconcl(id, "flush: "+err.Error())
+		}
+		census.Quiesce(rig.Watchdog)
+	}
+	in := payload.Make(1, 0, 0, 0, 20)
+	if err := st.MsgSend(&in, payload.Enc{}); err != nil {
+		return runner.Inconcl(id, "send: "+err.Error())
+	}
+	rg.Pair.A.StallWrites(true)
+	recv := rig.Go("recv", func() (interface{}, error) {
+		var m []byte
+		return nil, st.MsgRecv(&m, payload.Enc{})
+	})
+	_, snap := census.Quiesce(rig.Watchdog)
+	inTransport := false
+	for _, g := range snap {
+		if g.Has("simnet.(*End).Write") && g.Has("drpcstream.(*Stream).MsgRecv") {
+			inTransport = true
+		}
+	}
+	cancel()
+	_, snap = census.Quiesce(rig.Watchdog)
+	desc := fmt.Sprintf("recv-flush-stalled soft=%v invoke-still-corked=%v: manual flushing, a send left in the writer, the transport stops taking writes, a receive whose flush is inside the transport (observed there: %v), context cancelled", soft, corked, inTransport)
+	key := fmt.Sprintf("cancel:recv-flush-stalled soft=%v", soft)
+	if !recv.Returned() {
+		return runner.Violation(id, key+" receive-still-blocked", desc+"\nthe receive is still blocked at quiescence\n"+census.Dump(census.InDRPC(snap)))
+	}
+	// as in the main matrix: a receive that sits in its own flush inside the transport is, for the error it
+	// reports, a send; the soft mode promises the context's error to neither (there the manager closes the
+	// transport first and cancels the stream next, and the flush wakes up in between or after)
+	if recv.Err == nil || (!soft && !errors.Is(recv.Err, context.Canceled)) {
+		return runner.Violation(id, key+" wrong-error", desc+"\nthe receive returned "+rig.ErrStr(recv.Err)+", want the context's error")
+	}
+	res := runner.Hold(id, desc, inTransport)
+	res.Events = 3
+	return res
+}
+
 // midMessage: the context is cancelled while a middle frame of a message that spans several frames
 // is inside the transport, and that write then completes successfully (its bytes were out already).
 // The send was blocked in the transport when the cancel happened: default mode promises the
@@ -1139,6 +1198,13 @@ func gen(tier string, seed uint64) []runner.Scenario {
 			soft, stats := soft, stats
 			id := fmt.Sprintf("waiting-calls/soft=%v/stats=%v", soft, stats)
 			out = append(out, runner.Scenario{ID: id, Run: func() runner.Result { return waitingCalls(id, soft, stats) }})
+		}
+	}
+	for _, soft := range []bool{false, true} {
+		for _, corked := range []bool{false, true} {
+			soft, corked := soft, corked
+			id := fmt.Sprintf("recv-flush-stalled/soft=%v/corked=%v", soft, corked)
+			out = append(out, runner.Scenario{ID: id, Run: func() runner.Result { return recvFlushStalled(id, soft, corked) }})
 		}
 	}
 	for _, stats := range []bool{false, true} {
